@@ -29,6 +29,7 @@ REGISTERED = {"objects": ["x-registered-object", "registered-plain-object"], "ob
 
 
 REG_TOPLEVEL = "extension-definition--7c3b9e4f-5d6f-4a81-8cbd-2e3f4a5b6c7d"
+REG_TOPLEVEL2 = "extension-definition--8d4caf50-6e70-4b92-9dce-3f4a5b6c7d8e"
 
 
 def _register():
@@ -42,8 +43,13 @@ def _register():
             else:
                 mod.CustomObservable(t, [("value", P.StringProperty(required=True))])(type("RegObs", (object,), {}))
     # a registered toplevel-property-extension: its property t_rank becomes a top-level property of the carrier
-    stix2.v21.CustomExtension(REG_TOPLEVEL, [("t_rank", P.IntegerProperty())])(
+    stix2.v21.CustomExtension(REG_TOPLEVEL, [("t_rank", P.IntegerProperty()),
+                                             ("t_ref", P.EmbeddedObjectProperty(type=stix2.v21.ExternalReference)),
+                                             ("t_hashes", P.HashesProperty(["MD5", "SHA-256"], spec_version="2.1"))])(
         type("RegTopLevel", (object,), {"extension_type": "toplevel-property-extension"}))
+    # a second one: what building an object with both leaves behind must not change what the first one declares
+    stix2.v21.CustomExtension(REG_TOPLEVEL2, [("u_rank", P.IntegerProperty())])(
+        type("RegTopLevel2", (object,), {"extension_type": "toplevel-property-extension"}))
     stix2.v20.CustomExtension("x-registered-ext", [("rank", P.IntegerProperty(required=True))])(type("RegExt", (object,), {}))
     stix2.v21.CustomExtension("x-registered-ext", [("rank", P.IntegerProperty(required=True))])(type("RegExt", (object,), {}))
 
@@ -147,6 +153,12 @@ def signature(o):
 
 
 def observe(case):
+    if case.get("before"):
+        # other objects made earlier in the same process (both modes); what they leave behind must not matter
+        for b in case["before"]:
+            for allow in (True, False):
+                attempt(lambda: make(b, allow))
+        return observe({k: v for k, v in case.items() if k != "before"})
     if case.get("twice"):
         # the same case again after other objects were made in the same process: same outcome
         plain = {k: v for k, v in case.items() if k != "twice"}
